@@ -36,3 +36,40 @@ ob("C12", "O5", "leaf", "c12_value.rs", "c12_o5_equality", timeout=300, args=["-
 ob("C12", "O6", "leaf", "c12_value.rs", "c12_o6_type_name_truthy", timeout=300,
    what="type_name and is_truthy return the branch of the one kind that holds, for every bit pattern",
    functions=VALUE_FNS, bounds="none: all 2^64 bit patterns")
+
+# ---------------------------------------------------------------- C04 (generated per-opcode steps)
+import os as _os, sys as _sys
+_sys.path.insert(0, _os.path.dirname(__file__))
+import opgen as _opgen, shellgen as _shellgen
+
+REPO = _os.environ.get("VERIF_REPO", "/repo")
+VM_STUBS = ["std::hash::RandomState::new -> fixed keys", "std::fmt::format -> empty String", "VM::runtime_error -> same kind, empty stack trace",
+            "GlobalLayout::empty -> cfg(kani) twin without OnceLock"]
+CALL_STUBS = VM_STUBS + ["VM::call_cached_native -> arbitrary Ok(value)/Err, records the native's name",
+                         "VM::ensure_function_verified -> Ok(()) (objects are built verified=true; the verifier has its own obligations)",
+                         "VM::prepare_globals_for_function / sync_current_function_globals -> assume(false): one global layout only",
+                         "VM::print_value -> no-op (stdout)"]
+SHELL_PATH = "vm::dispatch::verif_shell::"
+RELEASE_ENV = {"CARGO_PROFILE_DEV_DEBUG_ASSERTIONS": "false"}
+C04_QUICK = {0, 2, 5, 18, 22, 36, 52, 125, 135, 161}
+
+
+def _c04():
+    try:
+        info = _shellgen.parse_run_rs(REPO)
+        groups = {a["file"]: _shellgen.pat_to_list(a["pat"]) for a in info["arms"]}
+        rows = _opgen.table(REPO, groups)
+    except Exception as e:  # noqa
+        return
+    for r in rows:
+        ob("C04", "S%03d" % r["op"], "runtime", "shell.rs", r["harness"], path=SHELL_PATH + r["harness"],
+           tier="quick" if r["op"] in C04_QUICK else "thorough", timeout=1500, args=["--default-unwind", "7"], env=RELEASE_ENV,
+           what="one step of opcode %d (%s) from an arbitrary coherent frame state: no memory error, no panic; ends in a value, a reported error, or cached locals that match the new top frame" % (r["op"], r["name"]),
+           functions=["VM::run_fast body re-instantiated around ops/%s.inc (opcode %d)" % (r["group"], r["op"])],
+           bounds="function of 4 symbolic words + 2 symbolic constants; instruction word fully symbolic (all operand fields); ip in 0..4; window base <= 2; "
+                  "register file of 6 symbolic Values; heap pool '%s'; heap budget 64 bytes from the limit; global unwind 7; GC off (no_gc_depth=1)" % r["pool"],
+           stubs=CALL_STUBS, assumes=["debug_assert! compiled out (release configuration) - typed opcodes on ill-typed registers are C06's subject",
+                                      "no verifier assumption: handlers must be self-guarding because cache words and jump targets are unchecked"])
+
+
+_c04()
